@@ -56,5 +56,13 @@ def generated(rng):
         s.well.append(("DATE", "", "01/02/2003", "log date"))
     if rng.random() < 0.2:
         s.params.append(("VLONG", "", "x" * 70, "d" * 40))
+    if rng.random() < 0.4:
+        # a unit starting with a period on an item with the longest mnemonic and the widest unit+value
+        s.params = [(m[:3], u, v[:6], d) for (m, u, v, d) in s.params]
+        s.params.append(("ELEVATION", ".1IN", "39370", "elevation of KB"))
+    if rng.random() < 0.3:
+        s.well = [w for w in s.well if w[0] in ("STRT", "STOP", "STEP")]
+        s.curves[0] = (s.curves[0][0], ".1IN", "", s.curves[0][3])
+        s.well[1] = ("STOP", "M", "999", "STOP")      # disagrees with the data: refreshed on the first write
     s.wrap = "NO"
     return lasgen.render(s)[0]
